@@ -396,6 +396,7 @@ public:
       c.diffuse_rhd = r.chance(0.4);
       c.rad_mode = r.chance(0.2) ? 1 : 0;
       c.tight_pools = c.threads > 1 && r.chance(0.35);
+      c.pool_slack = c.tight_pools && r.chance(0.5) ? 1 + (int)r.below(2) : 0;
       c.copy_level = (int)r.below(3);
     }
     if (prop == "C12") {
@@ -495,9 +496,19 @@ public:
           MI.max_buffers_in_use > 0) {
         const long safe_b = c.packets + 27 * c.total_subgrids() * (4 << c.copy_level) + 64;
         const long safe_t = 18 * c.total_subgrids() + 6 * c.packets + 2000;
-        c.nbuffers = std::min(safe_b, 2 * MI.max_buffers_in_use + 32);
-        c.ntasks = std::min(safe_t, 18l * c.total_subgrids() +
-                                        2 * MI.max_tasks_in_use + 64);
+        const long margin = c.threads + 2; // of the exhaustion guard
+        if (c.pool_slack == 0) {
+          c.nbuffers = std::min(safe_b, 2 * MI.max_buffers_in_use + 32);
+          c.ntasks = std::min(safe_t, 18l * c.total_subgrids() +
+                                          2 * MI.max_tasks_in_use + 64);
+        } else {
+          // nearly full pools: a slot that is given back is handed out
+          // again at once (the measured occupancy includes the hydro tasks)
+          const long fb = c.pool_slack == 1 ? MI.max_buffers_in_use / 4 + 8 : 4;
+          const long ft = c.pool_slack == 1 ? MI.max_tasks_in_use / 4 + 8 : 4;
+          c.nbuffers = std::min(safe_b, MI.max_buffers_in_use + fb + margin);
+          c.ntasks = std::min(safe_t, MI.max_tasks_in_use + ft + margin);
+        }
         tight = true;
       } else if (!fin0) {
         out.notes.push_back("measuring run for reduced pools did not finish: "
